@@ -6,7 +6,10 @@ use std::pin::Pin;
 use std::task::Poll;
 use std::thread;
 
+#[cfg(not(pavex_verif))]
 use tokio::net::TcpStream;
+#[cfg(pavex_verif)]
+use super::sim::TcpStream;
 use tokio::sync::mpsc::error::TrySendError;
 use tokio::task::{JoinError, JoinSet, LocalSet};
 use tracing_log_error::log_error;
@@ -235,6 +238,8 @@ where
             let message =
                 poll_fn(|cx| Self::poll_inboxes(cx, &mut command_inbox, &mut incoming_join_set))
                     .await;
+            #[cfg(pavex_verif)]
+            super::sim::preempt("acceptor:after-poll-inboxes");
             match message {
                 AcceptorInboxMessage::ServerCommand(command) => match command {
                     ServerCommand::Shutdown {
@@ -273,6 +278,8 @@ where
                             )
                         }
                     };
+                    #[cfg(pavex_verif)]
+                    super::sim::event("acceptor:accepted", Some(remote_peer));
                     // Re-spawn the task to keep accepting connections from the same socket.
                     incoming_join_set.spawn(accept_connection(incoming));
 
@@ -289,6 +296,8 @@ where
                         // Track if the worker has crashed.
                         let mut has_crashed: Option<usize> = None;
                         let worker_handle = &worker_handles[next_worker];
+                        #[cfg(pavex_verif)]
+                        super::sim::preempt("acceptor:before-dispatch");
                         match worker_handle.dispatch(connection_message) {
                             Err(e) => {
                                 connection_message = match e {
@@ -306,6 +315,10 @@ where
                                 // We've successfully sent the connection to a worker, so we can stop trying
                                 // to send it to other workers.
                                 has_been_handled = true;
+                                #[cfg(pavex_verif)]
+                                super::sim::event("acceptor:dispatched", Some(remote_peer));
+                                #[cfg(pavex_verif)]
+                                super::sim::preempt("acceptor:after-dispatch");
                                 break;
                             }
                         }
@@ -326,6 +339,8 @@ where
                     }
 
                     if !has_been_handled {
+                        #[cfg(pavex_verif)]
+                        super::sim::event("acceptor:dropped-all-busy", Some(remote_peer));
                         tracing::error!(
                             remote_peer = %remote_peer,
                             "All workers are busy, dropping connection",
@@ -358,6 +373,14 @@ where
     }
 
     fn spawn(self) -> thread::JoinHandle<()> {
+        #[cfg(pavex_verif)]
+        if super::sim::is_installed() {
+            super::sim::spawn_thread(
+                "pavex-acceptor".to_string(),
+                Box::new(move || Box::pin(self.run())),
+            );
+            return thread::spawn(|| {});
+        }
         thread::Builder::new()
             .name("pavex-acceptor".to_string())
             .spawn(move || {
@@ -381,6 +404,8 @@ where
         // It will in turn cause the `Incoming` to be dropped, which will cause the `TcpListener`
         // to be dropped, thus closing the socket and stopping acceptance of new connections.
         drop(incoming_join_set);
+        #[cfg(pavex_verif)]
+        super::sim::preempt("acceptor:listeners-dropped");
 
         let mut shutdown_join_set = JoinSet::new();
         for worker_handle in worker_handles {
@@ -388,6 +413,8 @@ where
             // The shutdown command is enqueued immediately, before the future is polled for the
             // first time.
             let future = worker_handle.shutdown(mode2);
+            #[cfg(pavex_verif)]
+            super::sim::preempt("acceptor:after-worker-shutdown-send");
             if mode.is_graceful() {
                 shutdown_join_set.spawn_local(future);
             }
@@ -402,6 +429,8 @@ where
             .await;
         }
 
+        #[cfg(pavex_verif)]
+        super::sim::preempt("acceptor:before-notify");
         // Notify the caller that the server has shut down.
         let _ = completion_notifier.send(());
     }
